@@ -29,6 +29,7 @@ type genState struct {
 	nEnum   int
 	nAlias  int
 	used    map[string]bool // type names used per pkg: "pkg.Name"
+	nested  bool            // some model package lives in a directory nested in a controller package
 }
 
 // Generate draws a project. profile: "order" (rich type graph, several
@@ -73,9 +74,11 @@ func Generate(seed uint64, profile string) *Project {
 	nr := Stream(seed, "projgen/nested/"+profile, 0)
 	for i := 0; i < nMdl; i++ {
 		name := fmt.Sprintf("mdl%c", 'a'+i)
-		if nr.Chance(1, 3) {
+		if nr.Chance(1, 2) {
 			parent := Pick(nr, g.ctlPkgs)
-			name = parent + "/" + Pick(nr, []string{"", "a0", "ctla_", "ctlb_", "ctlz_", "zz"}) + name
+			// "<parent>_f0_": right after the file that declares the parent's first controller, before its other files
+			name = parent + "/" + Pick(nr, []string{"", "a0", parent + "_f0_", parent + "_f0_", "ctlb_", "ctlz_", "zz"}) + name
+			g.nested = true
 		}
 		g.mdlPkgs = append(g.mdlPkgs, name)
 	}
@@ -291,6 +294,18 @@ func Generate(seed uint64, profile string) *Project {
 			Shuffle(r, p.Globs)
 		}
 	}
+	// (swarm, own stream) deep globs: "./pkg/**/*.go" also matches the files of packages nested below pkg
+	deepOdds := 5 // of 6 when nothing is nested below a controller package: one in six projects
+	if g.nested {
+		deepOdds = 2 // of 6 otherwise: four in six
+	}
+	if dr := Stream(seed, "projgen/deep-globs/"+profile, 0); !dr.Chance(deepOdds, 6) {
+		for gi, glob := range p.Globs {
+			if glob != "./*/*.go" && strings.HasSuffix(glob, "/*.go") {
+				p.Globs[gi] = strings.TrimSuffix(glob, "/*.go") + "/**/*.go"
+			}
+		}
+	}
 	// (swarm, own stream) import styles
 	p.ImportStyles = Stream(seed, "projgen/import-styles/"+profile, 0).Chance(1, 2)
 	// (swarm, order profile, own stream) globs that select only SOME files of a controller package: the files
@@ -298,7 +313,7 @@ func Generate(seed uint64, profile string) *Project {
 	// files are not part of the API; types declared there are still resolved through the package.
 	if gr := Stream(seed, "projgen/partial-globs/"+profile, 0); profile == "order" && gr.Chance(1, 2) {
 		for gi, glob := range p.Globs {
-			if glob == "./*/*.go" {
+			if glob == "./*/*.go" || strings.Contains(glob, "**") {
 				continue
 			}
 			pkg := strings.TrimSuffix(strings.TrimPrefix(glob, "./"), "/*.go")
